@@ -87,6 +87,56 @@ def run(tier):
                 rec_unwrap(rec, enc, spec, cph)
         if need:
             raise MachineryError("could not find payloads for all CRC byte values")
+        # security codes / AES keys / customer keys with trailing or leading 0x00 bytes (value classes, not left to chance)
+        for code in (b"\x01\x02\x03\x04\x05\x06\x07\x00", b"\x01\x02\x03\x04\x05\x06\x00\x00", b"\x00\x02\x03\x04\x05\x06\x07\x08", bytes(8),
+                     bytes(7) + b"\x01", b"\x41" * 7 + b"\x00"):
+            encc, specc = B2.dec_code(code)
+            for n in (0, 17, 26):
+                p = rand(n)
+                c = rec_wrap(rec, encc, specc, p)
+                rec_unwrap(rec, encc, specc, c)
+            # a frame made under the code with its trailing zeros removed / one more zero appended is a frame under ANOTHER key
+            for other_code in (code.rstrip(b"\x00"), code + b"\x00"):
+                if other_code != code and other_code:
+                    eo, so = B2.dec_code(other_code)
+                    rec_unwrap(rec, eo, so, rec_wrap(rec, encc, specc, rand(17)))
+        for key in (bytes(15) + b"\x01", b"\x01" + bytes(15), bytes(range(1, 16)) + b"\x00"):
+            enck, speck = B2.dec_cust(key, b"\x00" * 9 + b"\x07", 3)
+            c = rec_wrap(rec, enck, speck, rand(26))
+            rec_unwrap(rec, enck, speck, c)
+        # customer key verification: the slot must hold exactly the configured key - in particular an all-zero slot
+        # (a frame wrapped WITHOUT customer key) does not satisfy a verifier that is configured with one
+        for pos, n in ((0, 26), (5, 26), (16, 26), (0, 10), (30, 60)):
+            key = L.gen_key(r)
+            plain_enc, plain_spec = B2.dec_cust(key)
+            ck = rand(10)
+            ver_enc, ver_spec = B2.dec_cust(key, ck, pos)
+            pz = bytearray(rand(n))
+            pz[pos:pos + 10] = bytes(10)
+            c = rec_wrap(rec, plain_enc, plain_spec, bytes(pz))            # slot is all zero
+            rec_unwrap(rec, ver_enc, ver_spec, c)
+            pz[pos:pos + 10] = ck[:9] + bytes([ck[9] ^ 1])
+            rec_unwrap(rec, ver_enc, ver_spec, rec_wrap(rec, plain_enc, plain_spec, bytes(pz)))   # one bit off
+            pz[pos:pos + 10] = ck
+            rec_unwrap(rec, ver_enc, ver_spec, rec_wrap(rec, plain_enc, plain_spec, bytes(pz)))   # exactly the key: accepted and blanked
+        # frames a key holder can craft: right marker and length, WRONG checksum field (0000, FFFF, one bit off, CRC of another
+        # payload), wrong marker, non-minimal padding; built with the library's cipher only to craft inputs - TLC judges them
+        from bec2format.crypto import create_AES128
+        for n in (0, 1, 17, 26, 40):
+            key = L.gen_key(r)
+            encf, specf = B2.dec_cust(key)
+            p = rand(n)
+            good = crc8404B(p)
+            pad = (-(2 + 1 + n + 2) % 16) + 1
+            for crcval in (0x0000, 0xFFFF, good ^ 1, good ^ 0x8000, crc8404B(p + b"x"), good):
+                if crcval == good and crcval in (0, 0xFFFF):
+                    continue
+                frame = b"B" + bytes([n + 2]) + bytes(pad) + p + crcval.to_bytes(2, "big")
+                rec_unwrap(rec, encf, specf, create_AES128(key).encrypt(frame))
+            frame = b"C" + bytes([n + 2]) + bytes(pad) + p + good.to_bytes(2, "big")
+            rec_unwrap(rec, encf, specf, create_AES128(key).encrypt(frame))
+            frame = b"B" + bytes([n + 2]) + bytes(pad + 16) + p + good.to_bytes(2, "big")          # one more padding block: still a frame
+            rec_unwrap(rec, encf, specf, create_AES128(key).encrypt(frame))
         # customer key that does not match on unwrap
         for _ in range(20):
             key = L.gen_key(r)
